@@ -84,3 +84,95 @@ def interpCloneInto (env : Env) (N : Nat) (grow : Bool) (effs : List CEffect) :
     | .fault f => .fault f
 
 end Lasso
+
+namespace Lasso
+open Lasso.Source
+
+/-! ### `try_clone` and `try_clone_from` as wholes -/
+
+/-- Registers of `try_clone` / `try_clone_from`: the source's contents, what has been computed so far, and the
+target being built (table, vector, arena). -/
+structure WReg where
+  cs : List Bytes               -- the source's strings, in key order
+  srcMax : Nat                  -- the source's memory limit
+  total : Option Nat            -- `required_capacity`
+  t : Table
+  ss : List StrRef
+  a : Option Arena              -- the arena being filled (`none` until it exists)
+  pendingErr : Option (Out Unit) -- a fallible step's failure, waiting for its `?`
+  copied : Bool
+
+inductive WRes where
+  | go (s : WReg)
+  | ret (o : Out (Table × List StrRef × Arena))
+
+def Source.CEffect.runW (env : Env) (N : Nat) (grow : Bool) (copyEffs : List CEffect) (target : Option Arena)
+    (e : CEffect) (s : WReg) : WRes :=
+  match e with
+  | .sumLengths =>
+    let total := sumNat (s.cs.map List.length)
+    .go { s with total := some (if total = 0 then 4096 else total) }
+  | .arenaSizedToContent =>
+    match s.total with
+    | some cap => .go { s with a := some (Arena.new cap (Nat.max s.srcMax cap)) }
+    | none => .ret (.fault .unreachable)
+  | .presizeExact => .go s
+  | .cloneHasher => .go s
+  | .takeHasher => .go s
+  | .reserve => .go s
+  | .clearTarget =>
+    match target with
+    | some a => .go { s with t := [], ss := [], a := some a.clear }
+    | none => .ret (.fault .unreachable)
+  | .copyAll =>
+    match s.a with
+    | none => .ret (.fault .unreachable)
+    | some a =>
+      match interpCloneInto env N grow copyEffs s.cs 0 s.t s.ss a with
+      | .ok (t, ss, a') => .go { s with t := t, ss := ss, a := some a', copied := true }
+      | .err e => .go { s with pendingErr := some (.err e) }
+      | .panic => .ret .panic
+      | .fault f => .ret (.fault f)
+  | .propagate =>
+    match s.pendingErr with
+    | some (.err e) => .ret (.err e)
+    | _ => .go s
+  | _ => .ret (.fault .unreachable)
+
+def runWEffects (env : Env) (N : Nat) (grow : Bool) (copyEffs : List CEffect) (target : Option Arena) :
+    List CEffect → WReg → Out (Table × List StrRef × Arena)
+  | [], s =>
+    match s.a, s.copied, s.pendingErr with
+    | some a, true, none => .ok (s.t, s.ss, a)
+    | _, _, _ => .fault .unreachable
+  | e :: es, s =>
+    match e.runW env N grow copyEffs target s with
+    | .go s' => runWEffects env N grow copyEffs target es s'
+    | .ret o => o
+
+/-- `try_clone` run from the regenerated sequences. -/
+def interpTryClone (env : Env) (effs copyEffs : List CEffect) (r : Rodeo) (grow : Bool) : Out Rodeo :=
+  match Rodeo.contents env r.arena.read r.strings with
+  | none => .fault .oobIndex
+  | some cs =>
+    match runWEffects env r.N grow copyEffs none effs
+        { cs := cs, srcMax := r.arena.max, total := none, t := [], ss := [], a := none, pendingErr := none, copied := false } with
+    | .ok (t, ss, a) => .ok { table := t, strings := ss, arena := a, N := r.N }
+    | .err e => .err e
+    | .panic => .panic
+    | .fault f => .fault f
+
+/-- `try_clone_from` run from the regenerated sequences. -/
+def interpTryCloneFrom (env : Env) (effs copyEffs : List CEffect) (target source : Rodeo) (grow : Bool) : Out Rodeo :=
+  match Rodeo.contents env source.arena.read source.strings with
+  | none => .fault .oobIndex
+  | some cs =>
+    match runWEffects env target.N grow copyEffs (some target.arena) effs
+        { cs := cs, srcMax := source.arena.max, total := none, t := target.table, ss := target.strings, a := none,
+          pendingErr := none, copied := false } with
+    | .ok (t, ss, a) => .ok { table := t, strings := ss, arena := a, N := target.N }
+    | .err e => .err e
+    | .panic => .panic
+    | .fault f => .fault f
+
+end Lasso
